@@ -302,12 +302,12 @@ def run(ctx):
         nshift = 0
         for (k, n, z, b, e, x) in slot_w:
             idx = C06.storage_subscript(n)
-            t = a.za.lin(idx)
+            t = a.za.lin_at(z, idx)
             # the source of the move: the other storage subscript in the same element
             srcs = []
             for y in walk(e["expr"], into_sc=False):
                 if y.get("k") == "subscript" and y is not n and C06.storage_subscript(y) is not None:
-                    srcs.append(a.za.lin(C06.storage_subscript(y)))
+                    srcs.append(a.za.lin_at(z, C06.storage_subscript(y)))
             nshift += 1
             okshape = t is not None and len(srcs) == 1 and srcs[0] is not None and srcs[0][0] == t[0] and srcs[0][1] == t[1] + 1
             ctx.check(okshape, "R07.5", f, "erase-shifts-left-by-one", "erase stores into data_[%s] from %s: not `data_[k] <- data_[k+1]` (order of the remaining elements is not kept)"
@@ -336,10 +336,10 @@ def run(ctx):
         loops = cfg.loop_blocks(f)
         shift_right = False
         for (k, n, z, b, e, x) in stores:
-            idx = a.za.lin(C06.storage_subscript(n))
+            idx = a.za.lin_at(z, C06.storage_subscript(n))
             for y in walk(e["expr"], into_sc=False):
                 if y.get("k") == "subscript" and y is not n and C06.storage_subscript(y) is not None:
-                    s = a.za.lin(C06.storage_subscript(y))
+                    s = a.za.lin_at(z, C06.storage_subscript(y))
                     if idx and s and idx[0] == s[0] and idx[1] == s[1] + 1 and any(b in body for h, body in loops):
                         shift_right = True
         if not shift_right:
@@ -368,7 +368,8 @@ def run(ctx):
     n = 0
     for o in sub.obs:
         # (R06.6: an operation the bounded list refuses leaves the list as it was - a refused emplace that has already appended differs from it)
-        if o.rule in ("R06.5", "R06.6", "R06.8") or (o.rule == "R06.4" and "grow-below-capacity" in o.construct):
+        # (R06.9: iteration covers slots 0 .. size_ for every accessor pair; R06.4 / R06.2: an erase the bounded list refuses is refused)
+        if o.rule in ("R06.5", "R06.6", "R06.8", "R06.9", "R06.4", "R06.2"):
             o.rule = "R07.5"
             ctx.obs.append(o)
             n += 1
